@@ -705,6 +705,11 @@ def _eq(a, b):
 _is_dict = lambda x: isinstance(x, dict)
 
 
+def _no_keys(keys) -> bool:
+  """Whether no key was given: `Key.Index(0)` (an int) and `''` are keys."""
+  return not keys and not isinstance(keys, (int, str))
+
+
 @dataclasses.dataclass(frozen=True, kw_only=True, eq=False)
 class TreeTransform(Generic[TreeFnT]):
   """A lazy transform interface that works on a map like data.
@@ -1004,12 +1009,13 @@ class TreeTransform(Generic[TreeFnT]):
       batch_size: int = 0,
   ) -> TreeTransform:
     """Assign some key value pairs back to the input mapping."""
-    if output_keys:
+    if not _no_keys(output_keys):
       raise ValueError(
           '`output_keys` is deprecated, use positional arguments or'
           ' `assign_keys` instead.'
       )
-    assign_keys = assign_keys or output_keys
+    if _no_keys(assign_keys):
+      assign_keys = output_keys
     fn = tree_fns.Assign(
         output_keys=assign_keys,
         fn=fn,
@@ -1026,7 +1032,8 @@ class TreeTransform(Generic[TreeFnT]):
       output_keys: TreeMapKeys | None = None,
       batch_size: int = 0,
   ) -> TreeTransform:
-    output_keys = output_keys or input_keys
+    if _no_keys(output_keys):
+      output_keys = input_keys
     fn = tree_fns.Select(
         input_keys=input_keys, output_keys=output_keys, batch_size=batch_size
     )
